@@ -36,6 +36,10 @@ pub enum Op {
     Flash { u: u16, b: u16, amt: u64, rel: u8, repay: bool },
     /// admin reconfiguration: kind 0 deposit limit, 1 borrow limit, 2 op state, 3 init limit
     Configure { b: u16, kind: u8, val: u64 },
+    /// bank sunset steps: 0 = admin allows token-less repayments on the bank, 1 = risk admin forces
+    /// "repayments complete", 2 = risk admin purges user u's balance in the bank,
+    /// 3 = risk-admin deleverage bracket [start, repay_all (token-less when allowed), end] on user u
+    Sunset { b: u16, u: u16, step: u8 },
     Transfer { u: u16 },
     CloseAccount { u: u16 },
     Freeze { u: u16, on: bool },
@@ -64,6 +68,10 @@ impl Op {
             Op::Receivership { .. } => "receivership",
             Op::Flash { .. } => "flashloan",
             Op::Configure { .. } => "configure",
+            Op::Sunset { step: 0, .. } => "sunset_allow",
+            Op::Sunset { step: 1, .. } => "sunset_force_complete",
+            Op::Sunset { step: 2, .. } => "purge",
+            Op::Sunset { .. } => "deleverage",
             Op::Transfer { .. } => "transfer",
             Op::CloseAccount { .. } => "close_account",
             Op::Freeze { .. } => "freeze",
@@ -144,6 +152,7 @@ pub fn op_strategy() -> impl Strategy<Value = Op> {
         4 => (i(), i(), i(), amt_rel(), i(), amount_abs_strategy()).prop_map(|(lq, le, wb, (wamt, rel), rb, ramt)| Op::Receivership { lq, le, wb, wamt, rb, ramt, rel }),
         3 => (i(), i(), amt_rel(), any::<bool>()).prop_map(|(u, b, (amt, rel), repay)| Op::Flash { u, b, amt, rel, repay }),
         3 => (i(), 0u8..4, prop_oneof![Just(0u64), Just(1u64), Just(u64::MAX), amount_abs_strategy()]).prop_map(|(b, kind, val)| Op::Configure { b, kind, val }),
+        4 => (i(), i(), prop_oneof![1 => Just(0u8), 1 => Just(1u8), 3 => Just(2u8), 2 => Just(3u8)]).prop_map(|(b, u, step)| Op::Sunset { b, u, step }),
         1 => i().prop_map(|u| Op::Transfer { u }),
         1 => i().prop_map(|u| Op::CloseAccount { u }),
         1 => (i(), any::<bool>()).prop_map(|(u, on)| Op::Freeze { u, on }),
@@ -276,8 +285,15 @@ pub fn prefix_strategy() -> impl Strategy<Value = Vec<Op>> {
 pub fn case_strategy(cfg: &GenCfg) -> impl Strategy<Value = (WorldSpec, Vec<Op>)> {
     let max_ops = cfg.max_ops;
     let ops = prop_oneof![
-        1 => prop::collection::vec(op_strategy(), 1..=max_ops),
-        2 => (prefix_strategy(), prop::collection::vec(op_strategy(), 1..=max_ops)).prop_map(|(mut p, v)| { p.extend(v); p }),
+        4 => prop::collection::vec(op_strategy(), 1..=max_ops),
+        8 => (prefix_strategy(), prop::collection::vec(op_strategy(), 1..=max_ops)).prop_map(|(mut p, v)| { p.extend(v); p }),
+        // a bank in sunset: token-less repayments allowed and forced complete right after the lending prefix
+        1 => (prefix_strategy(), any::<u16>(), prop::collection::vec(op_strategy(), 1..=max_ops)).prop_map(|(mut p, b, v)| {
+            p.push(Op::Sunset { b, u: 0, step: 0 });
+            p.push(Op::Sunset { b, u: 0, step: 1 });
+            p.extend(v);
+            p
+        }),
     ];
     (world_strategy(cfg), ops)
 }
@@ -701,6 +717,60 @@ impl Runner {
                 }
                 st.ixs = vec![self.w.ix_configure_bank(bi, o, self.w.roles.admin)];
             }
+            Op::Sunset { b, u, step } => {
+                let mut bi = idx(*b, nb);
+                // purge / deleverage: prefer a bank that already carries the matching sunset flag
+                let want_flag = match step {
+                    2 => Some(marginfi_type_crate::constants::TOKENLESS_REPAYMENTS_COMPLETE),
+                    3 if b % 2 == 0 => Some(marginfi_type_crate::constants::TOKENLESS_REPAYMENTS_ALLOWED),
+                    _ => None,
+                };
+                if let Some(f) = want_flag {
+                    let c: Vec<usize> = (0..nb).filter(|i| self.snap.banks.get(&self.w.banks[*i].key).map(|x| x.flags & f != 0).unwrap_or(false)).collect();
+                    if !c.is_empty() {
+                        bi = c[idx(*b, c.len())];
+                    }
+                }
+                st.bank = Some(bi);
+                match step {
+                    0 => {
+                        let mut o = BankConfigOpt::default();
+                        o.tokenless_repayments_allowed = Some(true);
+                        st.ixs = vec![self.w.ix_configure_bank(bi, o, self.w.roles.admin)];
+                    }
+                    1 => st.ixs = vec![self.w.ix_force_tokenless_complete(bi, self.w.roles.risk)],
+                    2 => {
+                        let key = self.w.banks[bi].key;
+                        let ui = self.pick_user(*u, |p| p.bank == key);
+                        st.user = Some(ui);
+                        st.macct = Some(self.w.users[ui].accts[0]);
+                        st.ixs = vec![self.w.ix_purge(self.w.users[ui].accts[0], bi, self.w.roles.risk)];
+                    }
+                    _ => {
+                        let key = self.w.banks[bi].key;
+                        let ui = self.pick_user(*u, |p| p.bank == key && p.l_bits > 0);
+                        let acct = self.w.users[ui].accts[0];
+                        st.user = Some(ui);
+                        st.macct = Some(acct);
+                        let rec = World::liq_record_key(&acct);
+                        if self.w.vm.get(&rec).is_none() {
+                            let ix = self.w.ix_init_liq_record(acct, self.w.roles.risk);
+                            let _ = self.w.vm.exec(&ix);
+                        }
+                        // the risk admin needs a token account for the (possibly skipped) transfer
+                        let risk = self.w.roles.risk;
+                        let rta = kp("risk_ta", bi as u64);
+                        if self.w.vm.get(&rta).is_none() {
+                            let a = self.w.make_token_acct(&self.w.banks[bi].clone(), risk, 1 << 60);
+                            self.w.vm.set(rta, a);
+                        }
+                        let risk_pre = self.w.risk_metas(&acct, None, None);
+                        let risk_post = self.w.risk_metas(&acct, None, Some(key));
+                        st.ixs = vec![self.w.ix_start_deleverage(acct, risk), self.w.ix_repay(acct, risk, bi, rta, 0, Some(true)), self.w.ix_end_deleverage(acct, risk, risk_post)];
+                        let _ = risk_pre;
+                    }
+                }
+            }
             Op::Transfer { u } => {
                 let ui = idx(*u, nu);
                 let usr = self.w.users[ui].clone();
@@ -792,4 +862,183 @@ impl Runner {
 
 pub fn vm_clone(vm: &Vm) -> Vm {
     vm.clone()
+}
+
+// ------------------------------------------------------------------------------------------
+// byte decoder for the coverage-guided driver (libFuzzer): total function bytes -> case
+// ------------------------------------------------------------------------------------------
+pub struct ByteReader<'a> {
+    d: &'a [u8],
+    i: usize,
+}
+impl<'a> ByteReader<'a> {
+    pub fn new(d: &'a [u8]) -> Self {
+        ByteReader { d, i: 0 }
+    }
+    pub fn left(&self) -> usize {
+        self.d.len().saturating_sub(self.i)
+    }
+    pub fn u8(&mut self) -> u8 {
+        let v = self.d.get(self.i).copied().unwrap_or(0);
+        self.i += 1;
+        v
+    }
+    pub fn u16(&mut self) -> u16 {
+        u16::from_le_bytes([self.u8(), self.u8()])
+    }
+    pub fn u32(&mut self) -> u32 {
+        u32::from_le_bytes([self.u8(), self.u8(), self.u8(), self.u8()])
+    }
+    pub fn u64(&mut self) -> u64 {
+        (self.u32() as u64) | ((self.u32() as u64) << 32)
+    }
+    pub fn below(&mut self, n: u32) -> u32 {
+        if n == 0 {
+            0
+        } else {
+            self.u32() % n
+        }
+    }
+    pub fn bool(&mut self) -> bool {
+        self.u8() & 1 == 1
+    }
+}
+
+fn dec_amount(r: &mut ByteReader) -> (u64, u8) {
+    match r.u8() % 8 {
+        0 => (r.u8() as u64 % 4, 0),
+        1 => (r.u16() as u64, 0),
+        2 => (r.u32() as u64, 0),
+        3 => (r.u64() >> (r.u8() % 40), 0),
+        4 => (u64::MAX - (r.u8() as u64 % 2), 0),
+        5 | 6 => (r.u32() as u64 % 65_537, 1),
+        _ => (r.u8() as u64 % 5, 2),
+    }
+}
+
+fn dec_bank(r: &mut ByteReader) -> BankSpec {
+    let token = r.u8() % 3;
+    let isolated = r.u8() % 8 == 0;
+    let aw_i = if isolated { 0 } else { r.below(1_000_001) };
+    let aw_m = if isolated { 0 } else { (aw_i + r.below(1_000_001)).min(2_000_000) };
+    let lw_m = 1_000_000 + r.below(1_500_000);
+    let lw_i = lw_m + r.below(1_500_000);
+    let lim = |r: &mut ByteReader| match r.u8() % 8 {
+        0 => 0u64,
+        1 | 2 => 1000 + r.u64() % 1_000_000_000_000,
+        _ => u64::MAX,
+    };
+    let zero = r.below(1_000_000_000);
+    let hundred = zero.saturating_add(r.below(2_000_000_000)).max(1);
+    let npts = r.u8() % 6;
+    let mut utils: Vec<u32> = (0..npts).map(|_| 1 + r.below(u32::MAX - 1)).collect();
+    utils.sort();
+    utils.dedup();
+    let mut rates: Vec<u32> = (0..utils.len()).map(|_| zero + r.below(hundred - zero + 1)).collect();
+    rates.sort();
+    let fee = |r: &mut ByteReader| if r.u8() % 2 == 0 { 0 } else { r.below(300_000) };
+    let curve = CurveSpec { zero, hundred, points: utils.into_iter().zip(rates).collect(), ins_fixed: fee(r), ins_ir: fee(r), prot_fixed: fee(r), prot_ir: fee(r), orig: fee(r) / 10 };
+    let kind = r.u8() % 3;
+    let mant = 1 + (r.u32() as i64 % 2_000_000_000);
+    let expo = -(r.u8() as i32 % 9) - 1;
+    let oracle = if kind == 0 {
+        OracleSpec::fixed(mant, expo.max(-8))
+    } else {
+        let conf = (mant as u128 * (r.u16() % 300) as u128 / 10_000) as u64;
+        let ema = if kind == 1 { (mant as i128 * (900 + r.u16() as i128 % 200) / 1000).max(1) as i64 } else { mant };
+        OracleSpec { kind, mant, expo, conf, ema_mant: ema, ema_conf: conf, max_age: 100, max_conf: 0 }
+    };
+    BankSpec {
+        decimals: if r.u8() % 2 == 0 { 6 } else { r.u8() % 13 },
+        token,
+        fee_bps: if token == 2 { (r.u16() % 10_001) as u16 } else { 0 },
+        fee_max: if token == 2 { r.u32() as u64 } else { 0 },
+        aw_i,
+        aw_m,
+        lw_i,
+        lw_m,
+        isolated,
+        deposit_limit: lim(r),
+        borrow_limit: lim(r),
+        init_limit: if r.u8() % 4 == 0 { 1 + r.u32() as u64 % 10_000_000 } else { 0 },
+        curve,
+        oracle,
+        emode_tag: 0,
+        emode_entries: vec![],
+        asset_tag: 0,
+        op_state: 1,
+        permissionless_bad_debt: r.u8() % 5 == 0,
+    }
+}
+
+pub fn decode_case(data: &[u8]) -> (WorldSpec, Vec<Op>) {
+    let mut r = ByteReader::new(data);
+    let nb = 1 + (r.u8() % 4) as usize;
+    let banks: Vec<BankSpec> = (0..nb).map(|_| dec_bank(&mut r)).collect();
+    let n_users = 2 + r.u8() % 3;
+    let pe = r.bool();
+    let spec = WorldSpec {
+        program_fee_fixed: if pe { r.below(200_000) } else { 0 },
+        program_fee_rate: if pe { r.below(500_000) } else { 0 },
+        program_fees_enabled: pe,
+        bank_init_flat_sol_fee: 5000,
+        liq_flat_sol_fee: 0,
+        liq_max_fee: 50_000,
+        banks,
+        n_users,
+        user_tokens: if r.u8() % 4 == 0 { 1_000_000 + r.u64() % 1_000_000_000_000_000 } else { 1 << 62 },
+        distinct_roles: true,
+    };
+    let mut ops = vec![];
+    while r.left() > 4 && ops.len() < 160 {
+        let k = r.u8() % 32;
+        let op = match k {
+            0..=5 => {
+                let (amt, rel) = dec_amount(&mut r);
+                Op::Deposit { u: r.u16(), b: r.u16(), amt, rel, up: r.u8() % 3 }
+            }
+            6..=8 => {
+                let (amt, rel) = dec_amount(&mut r);
+                Op::Withdraw { u: r.u16(), b: r.u16(), amt, rel, all: r.u8() % 4 == 0 }
+            }
+            9..=13 => {
+                let (amt, rel) = dec_amount(&mut r);
+                Op::Borrow { u: r.u16(), b: r.u16(), amt, rel }
+            }
+            14..=15 => {
+                let (amt, rel) = dec_amount(&mut r);
+                Op::Repay { u: r.u16(), b: r.u16(), amt, rel, all: r.u8() % 3 == 0 }
+            }
+            16..=17 => {
+                let (amt, rel) = dec_amount(&mut r);
+                Op::Liquidate { lq: r.u16(), le: r.u16(), asset: r.u16(), liab: r.u16(), amt, rel }
+            }
+            18 => Op::Accrue { b: r.u16() },
+            19 => Op::Collect { b: r.u16() },
+            20 => Op::WithdrawFees { b: r.u16(), amt: r.u64() >> (r.u8() % 50), ins: r.bool() },
+            21 => Op::Bankrupt { u: r.u16(), b: r.u16(), signer: r.u8() % 4, crash: r.u8() % 5 < 3 },
+            22 => Op::CloseBalance { u: r.u16(), b: r.u16() },
+            23 => Op::Price { b: r.u16(), num: r.u16() % 3000, conf_bps: if r.bool() { 0 } else { r.u16() % 2000 } },
+            24..=25 => Op::Wait { secs: match r.u8() % 4 { 0 => r.u8() as u32, 1 => r.u16() as u32, 2 => r.u32() % 40_000_000, _ => 0 } },
+            26 => Op::Distress { le: r.u16(), mode: (r.u8() % 5 == 0) as u8, depth: 1 + r.u16() % 900 },
+            27 => {
+                let (wamt, rel) = dec_amount(&mut r);
+                Op::Receivership { lq: r.u16(), le: r.u16(), wb: r.u16(), wamt, rb: r.u16(), ramt: r.u64() >> (r.u8() % 50), rel }
+            }
+            28 => {
+                let (amt, rel) = dec_amount(&mut r);
+                Op::Flash { u: r.u16(), b: r.u16(), amt, rel, repay: r.bool() }
+            }
+            29 => Op::Configure { b: r.u16(), kind: r.u8() % 4, val: match r.u8() % 4 { 0 => 0, 1 => 1, 2 => u64::MAX, _ => r.u64() >> (r.u8() % 50) } },
+            30 => match r.u8() % 4 {
+                3 => Op::Sunset { b: r.u16(), u: r.u16(), step: r.u8() % 4 },
+                0 => Op::Transfer { u: r.u16() },
+                1 => Op::CloseAccount { u: r.u16() },
+                _ => Op::Freeze { u: r.u16(), on: r.bool() },
+            },
+            _ => Op::Pulse { u: r.u16() },
+        };
+        ops.push(op);
+    }
+    (spec, ops)
 }
